@@ -2,11 +2,12 @@
 import json
 import os
 import struct
+import subprocess
 import sys
 import time
 from fractions import Fraction
 
-from . import core, num
+from . import core, floatbits, num
 from .core import Case, Report
 from .rng import Rng
 
@@ -171,6 +172,22 @@ def run_property(mod, pid, tier, seed, replay=None):
             streams[c.tag]["predicate_failures"] += 1
             rep.violation("predicate", text, {"case": case_to_json(c), "implementation": list(map(str, ri)),
                                               "failed_predicate": text})
+    if pid in floatbits.PIDS:
+        # bit-level agreement of the translation of today's src/bi.rs, evaluated in IEEE-754 arithmetic by the kernel
+        try:
+            nb, same, bad = floatbits.check(cases, impl, len(cases) if replay else 1500 if tier == "quick" else 40000)
+        except (RuntimeError, subprocess.SubprocessError, ValueError) as e:
+            nb, same, bad = 0, 0, []
+            rep.violation("correspondence", "bit-level evaluation of the translation failed: " + str(e)[:1500],
+                          {"correspondence": str(e)[-3000:]})
+        rep.cov["float_bit_level"] = {
+            "cases": nb, "bit_identical": same,
+            "what": "the Gallina translation of today's src/bi.rs (regenerated by tools/rs2v.py, proved equal to the model for "
+                    "every number structure) instantiated at Flocq's IEEE-754 binary64 / binary32 operations (coq/Model/InstF.v) "
+                    "and evaluated by the kernel must give the implementation's decision and floats bit for bit"}
+        for c, text in bad[:20]:
+            rep.violation("correspondence", "bit-level: " + text,
+                          {"case": case_to_json(c), "correspondence": text, "stream": c.tag})
     if replay:
         for c, ri, rm in zip(cases, impl, model):
             print("replay case:", c.impl_line())
